@@ -227,9 +227,11 @@ func extractPanicSites(repo string, baselineOut string) ([]PanicSite, map[string
 			}
 			if sel := prog.MethodSets.MethodSet(types.NewPointer(tm.Type())).Lookup(sp.Pkg, "FromBytes"); sel != nil {
 				roots["v4val"] = append(roots["v4val"], prog.MethodValue(sel))
+				facts.V4ValTypes = append(facts.V4ValTypes, "dhcpv4."+tm.Name())
 			}
 		}
 	}
+	sort.Strings(facts.V4ValTypes)
 	// observers: every exported method that the oracle's reflection sweep may call
 	obsMethods := func(group string, suffixes ...string) {
 		for _, sfx := range suffixes {
